@@ -387,6 +387,73 @@ func TestVf_C20_Conc(t *testing.T) {
 	})
 }
 
+// History independence: a sequence of searches on ONE array that is modified in place between the calls (same base
+// address, same length), with non-decreasing and arbitrary keys - the answer may depend on the current contents only.
+type vfSearchHist struct {
+	N     int        `json:"n"`
+	Steps [][]uint64 `json:"steps"` // each step: [k, pos, newkey] - set key slot pos to newkey (keeping ascending order), then search k
+	Init  []uint64   `json:"init"`
+}
+
+func TestVf_C20_History(t *testing.T) {
+	ev := vfNewEvidence(t, "C20")
+	rapid.Check(t, func(t *rapid.T) {
+		n := 2 * rapid.IntRange(1, 80).Draw(t, "n")
+		back := make([]uint64, n+16)
+		h := &vfSearchHist{N: n}
+		cur := rapid.Uint64Range(0, 50).Draw(t, "start")
+		for i := 0; i < n; i += 2 {
+			back[i] = cur
+			back[i+1] = 1
+			cur += rapid.Uint64Range(1, 20).Draw(t, "step")
+		}
+		h.Init = append([]uint64(nil), back[:n]...)
+		xs := back[:n:n]
+		steps := rapid.IntRange(2, 12).Draw(t, "steps")
+		k := uint64(0)
+		moved := false
+		for s := 0; s < steps; s++ {
+			// rewrite a stretch of keys in place: shift all keys down or up by a constant (order is preserved)
+			switch rapid.IntRange(0, 3).Draw(t, "edit") {
+			case 0:
+				d := rapid.Uint64Range(1, 400).Draw(t, "up")
+				for i := 0; i < n; i += 2 {
+					xs[i] += d
+				}
+				moved = true
+			case 1:
+				d := rapid.Uint64Range(1, 400).Draw(t, "down")
+				if xs[0] >= d {
+					for i := 0; i < n; i += 2 {
+						xs[i] -= d
+					}
+				}
+			case 2:
+				// refill completely with a new ascending run
+				c := rapid.Uint64Range(0, 3000).Draw(t, "restart")
+				for i := 0; i < n; i += 2 {
+					xs[i] = c
+					c += rapid.Uint64Range(1, 20).Draw(t, "step2")
+				}
+				moved = true
+			}
+			if rapid.Bool().Draw(t, "ascendingk") {
+				k += rapid.Uint64Range(0, 60).Draw(t, "kinc")
+			} else {
+				k = rapid.Uint64Range(0, 4000).Draw(t, "k")
+			}
+			h.Steps = append(h.Steps, append([]uint64{k}, xs...))
+			want := vfRefSearch(xs, k)
+			got, p := vfCallSearch(xs, k)
+			if p != nil || got != want {
+				t.Fatalf("%s", vfFail("C20", "search", "C20/depends-on-call-history", h, "after %d earlier searches and in-place edits of the same array: Search(xs,%d)=%d (panic %v), the first key >= k is at %d", s, k, got, p, want))
+			}
+		}
+		ev.Case(moved && steps >= 3, vfHash(n, steps, k, xs[0]), "history-on-one-array")
+		ev.Sample(moved, func() any { return map[string]any{"len": n, "searches_on_the_same_array": steps} })
+	})
+}
+
 func TestVfReplay_C20(t *testing.T) {
 	var c vfSearchCase
 	if !vfLoadReplay(t, &c) {
